@@ -122,13 +122,55 @@ static std::string check_key(const std::string& key, Native& nat, const std::vec
 	return "";
 }
 
+// ---- instruction forms --------------------------------------------------------------------------------
+// The generator draws 32-bit immediates, shifts, rotation counts and register pairs from the key; a slip of the native emitter for one
+// immediate class (say a sign-extended 8-bit form for 128..255) shows in one key out of tens of thousands (seeded change agent6_C08).
+// So the emitter and the two executors are also compared on every instruction FORM: type x dst x src x shift x imm32 boundary set,
+// in synthetic programs (well-formedness is irrelevant to an emitter), with reciprocal indices below and above 255.
+static std::string check_forms(int type, Native& nat, const std::vector<std::array<uint64_t, 8>>& rv, vf::Result& R, bool th) {
+	static const uint32_t IM[] = { 0, 1, 2, 3, 7, 8, 13, 31, 32, 33, 63, 64, 0x7F, 0x80, 0x81, 0xC4, 0xDC, 0xFF, 0x100, 0x7FF, 0x800, 0x7FFF, 0x8000, 0xFFFF, 0x10000, 0x7FFFFF, 0x800000, 0x7FFFFFFF, 0x80000000u, 0x80000001u,
+		0xFFFFFF00u, 0xFFFFFF7Fu, 0xFFFFFF80u, 0xFFFFFF81u, 0xFFFF7FFFu, 0xFFFF8000u, 0xFFFFFFFEu, 0xFFFFFFFFu, 0x12345678u, 0xEDCBA987u };
+	auto T = (SuperscalarInstructionType)type;
+	const bool has_imm = T == SuperscalarInstructionType::IROR_C || (type >= (int)SuperscalarInstructionType::IADD_C7 && type <= (int)SuperscalarInstructionType::IXOR_C9) || T == SuperscalarInstructionType::IMUL_RCP;
+	const bool has_src = !has_imm;
+	std::vector<uint32_t> imms; if (has_imm) imms.assign(IM, IM + sizeof IM / sizeof IM[0]); else imms = { 0 };
+	for (uint32_t imm : imms) for (int shift = 0; shift < (T == SuperscalarInstructionType::IADD_RS ? 4 : 1); ++shift) for (int rbase : { 0, 250 }) {
+		if (T == SuperscalarInstructionType::IMUL_RCP && (imm == 0 || (imm & (imm - 1)) == 0)) continue;   // the generator never emits these divisors
+		if (T != SuperscalarInstructionType::IMUL_RCP && rbase) continue;
+		if (T == SuperscalarInstructionType::IROR_C && imm > 63 && !th) continue;
+		randomx::SuperscalarProgram cp; cp.setSize(0); cp.setAddressRegister(0); spec::SsProgram sp; std::vector<uint64_t> rcp((size_t)rbase, 0x9E3779B97F4A7C15ull);
+		unsigned n = 0;
+		for (int d = 0; d < 8; ++d) for (int sr = 0; sr < (has_src ? 8 : 1); ++sr) {
+			if (T == SuperscalarInstructionType::IADD_RS && d == 5) continue;   // never generated: r5 as IADD_RS destination needs a displacement on x86 (RegisterNeedsDisplacement; Table 6.1.1 check above enforces it on generated programs)
+			randomx::Instruction& in = cp(n); in.opcode = (uint8_t)type; in.dst = (uint8_t)d; in.src = (uint8_t)(has_src ? sr : d); in.mod = (uint8_t)(shift << 2); in.setImm32(imm);
+			spec::SsInstr mi{ (uint8_t)type, (uint8_t)d, (uint8_t)(has_src ? sr : d), (uint8_t)(shift << 2), imm }; sp.ins.push_back(mi);
+			if (T == SuperscalarInstructionType::IMUL_RCP) { uint32_t dv = imm + (uint32_t)d * 2; while (dv == 0 || (dv & (dv - 1)) == 0) dv += 3; sp.ins.back().imm32 = dv; rcp.push_back(randomx_reciprocal(dv)); in.setImm32((uint32_t)rcp.size() - 1); }
+			++n;
+		}
+		cp.setSize(n);
+		nat.load(cp, rcp);
+		for (auto& v : rv) {
+			uint64_t a[8], b[8], c[8]; memcpy(a, v.data(), 64); memcpy(b, v.data(), 64); memcpy(c, v.data(), 64);
+			randomx::executeSuperscalar(a, cp, &rcp); nat.run(b); spec::execute_superscalar(c, sp);
+			R.n["form_executions"]++;
+			char t[120]; snprintf(t, sizeof t, "instruction type %d, imm32 0x%08x, shift %d, reciprocal table offset %d: ", type, imm, shift, rbase);
+			if (memcmp(a, c, 64)) return std::string(t) + "interpreted execution differs from the specification";
+			if (memcmp(a, b, 64)) { int k = 0; while (a[k] == b[k]) ++k; return std::string(t) + "native code differs from the interpreter in r" + std::to_string(k) + " (interp " + vf::hex64(a[k]) + ", native " + vf::hex64(b[k]) + ")"; }
+		}
+		R.n["form_programs"]++;
+	}
+	return "";
+}
+
 int main(int argc, char** argv) {
 	vf::Args args = vf::parse_args(argc, argv, "C09");
 	const bool th = args.thorough();
 	std::vector<std::string> shapes = alph::key_shapes(true);
 	auto rv = reg_vectors(th);
 	if (!args.replay.empty()) {
-		vf::Json r = vf::Json::load(args.replay); auto k = vf::unhex(r.at("rxkey").s); vf::Result R; spec::GenStats gs; Native nat;
+		vf::Json r = vf::Json::load(args.replay);
+		if (r.has("form_type")) { vf::Result R; Native nat; std::string d = check_forms((int)r.at("form_type").num(), nat, rv, R, th); printf("replay: %s\n", d.empty() ? "conformant" : d.c_str()); return d.empty() ? 0 : 1; }
+		auto k = vf::unhex(r.at("rxkey").s); vf::Result R; spec::GenStats gs; Native nat;
 		std::string d = check_key(std::string((const char*)k.data(), k.size()), nat, rv, R, gs, true);
 		printf("replay: %s\n", d.empty() ? "conformant" : d.c_str()); return d.empty() ? 0 : 1;
 	}
@@ -139,6 +181,11 @@ int main(int argc, char** argv) {
 	const int nsh = 64;
 	vf::Result total = vf::run_shards(args, nsh, [&](int shard) {
 		vf::Result R; spec::GenStats gs; Native nat;
+		if (shard < (int)SuperscalarInstructionType::COUNT) {
+			vf::set_current(vf::Json::obj().set("form_type", shard).dump());
+			std::string d = check_forms(shard, nat, rv, R, th);
+			if (!d.empty()) { vf::Violation v; v.key = "c09:form"; v.what = d; v.replay = vf::Json::obj().set("form_type", shard); R.viol.push_back(v); }
+		}
 		for (size_t i = shard; i < ids.size(); i += nsh) {
 			if (args.expired()) { R.incomplete = true; break; }
 			std::string key = key_of(ids[i], shapes);
@@ -157,9 +204,9 @@ int main(int argc, char** argv) {
 	vf::Evidence ev; ev.level = "exploration";
 	vf::Json never = vf::Json::arr();
 	for (const char* p : { "path_thrown_away", "path_stall_cycles", "path_r5_source_rule", "path_mul_port_saturation", "path_size_cap", "path_chained_mul", "path_group_aborted", "path_port_map_exhausted" }) if (total.n[p] == 0) never.push(p);
-	ev.coverage.set("evaluations", (unsigned long long)(total.n["programs"] + total.n["executions"])).set("distinct_nontrivial", (unsigned long long)total.n["programs"])
+	ev.coverage.set("evaluations", (unsigned long long)(total.n["programs"] + total.n["executions"] + total.n["form_executions"])).set("distinct_nontrivial", (unsigned long long)total.n["programs"])
 		.set("exhaustive", !total.incomplete).set("generator_paths_never_reached", never)
-		.set("rule", "keys: the key-shape alphabet, the empty key, all 256 one-byte keys, all 65536 two-byte keys and (thorough) 262144 three-byte keys; for each of the 8 programs of a key: generation terminates, Table 6.1.1 well-formedness checked on the repository's program object, every field and the address register equal the specification generator; executeSuperscalar == x86 code generated by generateSuperscalarHash (program under test first, seven empty programs, all-zero cache image so the interleaved XORs are identities, one reciprocal table per key filled across its 8 programs as initCache does, entered through a trampoline that loads r8-r15) == model executor on the register-vector alphabet (native execution for the shapes, the one-byte keys and every 17th / 8th two-byte key). distinct = programs");
+		.set("rule", "keys: the key-shape alphabet, the empty key, all 256 one-byte keys, all 65536 two-byte keys and (thorough) 262144 three-byte keys; for each of the 8 programs of a key: generation terminates, Table 6.1.1 well-formedness checked on the repository's program object, every field and the address register equal the specification generator; executeSuperscalar == x86 code generated by generateSuperscalarHash (program under test first, seven empty programs, all-zero cache image so the interleaved XORs are identities, one reciprocal table per key filled across its 8 programs as initCache does, entered through a trampoline that loads r8-r15) == model executor on the register-vector alphabet (native execution for the shapes, the one-byte keys and every 17th / 8th two-byte key). instruction forms: every type x dst x src x shift x a 40-value imm32 boundary set (8-/16-/32-bit edges), reciprocal indices below and above 255, in synthetic programs: interpreter == native == model. distinct = programs");
 	ev.assumptions = { "chapter 6 under-specifies the order of random-number consumption; the model generator is a second implementation frozen in /verif (it detects changes, it cannot certify the generator against prose)", "keys reach the generator only through Blake2b, so the key set is a large deterministic population, not a partition proof" };
 	return vf::finish(args, total, ev, true, true);
 }
